@@ -106,7 +106,7 @@ def normWorld (w : World N) : World N :=
 
 def showWorld (w : World N) : String :=
   let bs := (List.finRange N).map fun a => toString (if a.val = 0 then w.bal a - godBal else w.bal a)
-  let ss := [5, 6].flatMap fun a => match acct? a with
+  let ss := [4, 5, 6].flatMap fun a => match acct? a with
     | some a => (List.range nKey).map fun k => toString (w.store a k)
     | none => []
   ",".intercalate bs ++ "|" ++ ",".intercalate ss
@@ -138,7 +138,7 @@ def step (s : St) (toks : List String) : St × String :=
           match nb.toNat?, parseWhole prog with
           | some nb, some ops =>
             -- {"method":"run","params":{"p":"<prog>"}}
-            if !(t.val = 5 || t.val = 6) || nb ≠ prog.length + 34 then (s, "bad-op")
+            if !(t.val = 4 || t.val = 5 || t.val = 6) || nb ≠ prog.length + 34 then (s, "bad-op")
             else ({ s with txs := s.txs ++ [⟨f, t, v, l, nb, .call ops⟩], depth := max s.depth prog.length }, "ok")
           | _, _ => (s, "bad-op")
         | _, _ => (s, "bad-op")
